@@ -59,9 +59,9 @@ DROPPED = [
     "[i, rmd(i)]).  That Tree::from_str builds such arrays is NOT verified here (Kani ran out of memory on it, DESIGN 11)",
     "verify_threshold: R16 closure conversion `mut map_child: F, F: FnMut(Self) -> Result<T, E>` -> `map_child: &mut F, F: ChildMapper<'s, T, E>` with `map_child(x)` -> `map_child.call(x)` "
     "(a by-value FnMut closure capturing `&mut stack` IS a `&mut` environment; Verus has no FnMut state).  Instances for the policy call sites: the closure body of the call site "
-    "is inlined for `map_child(ARG)` as `{ let _ = ARG; BODY }`, `stack` becomes a `&mut Vec` parameter, T / E are fixed to the call site's types",
+    "is inlined for `map_child(ARG)` as `{ let _ = ARG; BODY }`, `stack` becomes a `&mut Vec` parameter, T / E are fixed to the call site's types (also where the body names them: `E::from(x)` -> `Error::from(x)`)",
     "verify_threshold: R14 `PRE.and_then(|thresh| thresh.translate_by_index(|_| BODY))` -> `match PRE { Err(e) => Err(e), Ok(thresh) => { index loop over 0..thresh.inner.len() "
-    "running BODY (verbatim), stop at the first Err, Ok(Threshold { k, inner }) } }`: definitions of Result::and_then and of Threshold::translate_by_index "
+    "running BODY (verbatim), stop at the first Err, Ok(Threshold { k, inner }) } }` (also when written `let t = PRE?; t.translate_by_index(|_| BODY)`: `let th_ = t;` + the same loop): definitions of Result::and_then and of Threshold::translate_by_index "
     "(`(0..n).map(f).collect::<Result<Vec<_>, _>>().map(|inner| Threshold { k, inner })`; its text must equal EXPECTED_TRANSLATE_BY_INDEX, else UNDECIDED) + trusted std semantics "
     "of map/collect into Result (calls in index order, stops at the first Err)",
     "constructors used as function values (`.map_err(ParseThresholdError::ParseK)`, `.map(Policy::Key)`, `.map_err(Error::Parse)` ..) are eta-expanded to closures (R12')",
@@ -534,34 +534,56 @@ def AND_THEN_TAIL(text):
 
 # ---- verify_threshold ------------------------------------------------------------------------------------------------
 class ThresholdTail:
-    """R14: `PRE.and_then(|THRESH| THRESH.translate_by_index(|IDX| BODY))` at the end of verify_threshold -> match + index loop (BODY verbatim)"""
+    """R14: `PRE.and_then(|THRESH| THRESH.translate_by_index(|IDX| BODY))` at the end of verify_threshold -> match + index loop (BODY verbatim);
+    equally `RECV.translate_by_index(|IDX| BODY)` as the tail expression (the Err case of PRE already left through `?`) -> `let th_ = RECV;` + the same loop"""
     rule = "R14-and_then-translate_by_index"
 
     def __init__(self, ghost0, inv, post):
         self.ghost0, self.inv, self.post = ghost0, inv, post
 
     def __call__(self, text):
-        m = re.search(r"\.and_then\(\|(\w+)\|\s*(\w+)\.translate_by_index\(\|(\w+)\|\s*", text)
-        if not m or m.group(1) != m.group(2):
+        # the call `RECV.translate_by_index(|IDX| BODY)`; BODY is the closure body, verbatim
+        m = re.search(r"\.translate_by_index\(\|(\w+)\|\s*", text)
+        if not m:
             return None
-        o = text.index("(", m.start())                       # the `(` of and_then(
-        c = match_close(text, o)
-        if text[c + 1:].strip() != "}":
-            raise Undecided("verify_threshold: `.and_then(..translate_by_index..)` is not the tail expression")
-        inner_open = text.index("(", text.index("translate_by_index", m.start()))
+        inner_open = text.index("(", m.start())
         inner_close = match_close(text, inner_open)
         body = text[m.end():inner_close].strip()
-        # PRE: the tail expression starts after the last `;`
-        start = tail_expr_start(text, m.start())
-        if start is None:
-            return None
-        pre = text[start:m.start()].strip()
-        th, idx = m.group(1), m.group(3)
+        idx = m.group(1)
+        ma = re.search(r"\.and_then\(\|(\w+)\|\s*(\w+)\s*$", text[:m.start()])
+        if ma and ma.group(1) == ma.group(2):
+            # shape A: `PRE.and_then(|TH| TH.translate_by_index(..))` is the tail expression (definition of Result::and_then)
+            o = text.index("(", ma.start())                  # the `(` of and_then(
+            c = match_close(text, o)
+            if text[inner_close + 1:c].strip() or text[c + 1:].strip() != "}":
+                raise Undecided("verify_threshold: `.and_then(..translate_by_index..)` is not the tail expression")
+            start = tail_expr_start(text, ma.start())
+            if start is None:
+                return None
+            th = ma.group(1)
+            opener = "match %s {\n            Err(e_) => Err(e_),\n            Ok(%s) => {" % (text[start:ma.start()].strip(), th)
+            closer = "}\n        }"
+        else:
+            # shape B: `RECV.translate_by_index(..)` itself is the tail expression (the and_then of shape A written as `let TH = PRE?;`)
+            if text[inner_close + 1:].strip() != "}":
+                raise Undecided("verify_threshold: `..translate_by_index(..)` is not the tail expression")
+            start = tail_expr_start(text, m.start())
+            if start is None:
+                return None
+            recv = text[start:m.start()].strip()
+            if not recv:
+                return None
+            th = "th_"
+            opener = "{\n                let th_ = %s;" % recv
+            closer = "}"
         bind = "" if idx == "_" else "let %s = i_;\n                    " % idx
+        # the ghost text names the child iterator `child_iter`: read the local's actual name off `let mut NAME = self.children();`
+        ghost0, inv, post = self.ghost0, self.inv, self.post
+        mi = re.search(r"\blet\s+mut\s+(\w+)\s*=\s*self\s*\.children\(\)\s*;", text)
+        if mi and mi.group(1) != "child_iter":
+            ghost0, inv, post = (re.sub(r"\bchild_iter\b", mi.group(1), g) for g in (ghost0, inv, post))
         new = ("""
-        match %(pre)s {
-            Err(e_) => Err(e_),
-            Ok(%(th)s) => {
+        %(opener)s
                 let %(th)s: Threshold<(), MAX> = %(th)s;          // translate_by_index keeps MAX
                 let k_ = %(th)s.k;
                 let n_ = %(th)s.inner.len();
@@ -577,9 +599,8 @@ class ThresholdTail:
                 }
                 %(post)s
                 Ok(Threshold { k: k_, inner: inner_ })
-            }
-        }
-    }""" % dict(pre=pre, th=th, ghost0=self.ghost0, inv=self.inv, bind=bind, body=body, post=self.post))
+            %(closer)s
+    }""" % dict(opener=opener, closer=closer, th=th, ghost0=ghost0, inv=inv, bind=bind, body=body, post=post))
         return text[:start] + new
 
 
@@ -628,6 +649,11 @@ def inline_closure(body):
     return rw
 
 
+def subst_type_param_path(text, param, ty):
+    """instantiating the type parameter `param` with `ty` also instantiates its uses as a path head in the body (`E::from(x)` -> `Error::from(x)`)"""
+    return re.sub(r"(?<![\w:])%s(?=\s*::)" % re.escape(param), ty, text)
+
+
 def instance_signature(ty, err):
     @rule("R16-instance-signature")
     def rw(text):
@@ -638,7 +664,7 @@ def instance_signature(ty, err):
         if not n:
             return None
         new, n = re.subn(r"->\s*Result<Threshold<T, MAX>, E>", "-> Result<Threshold<%s, MAX>, %s>" % (RESULT_ELEM[ty], err), new, count=1)
-        return new if n else None
+        return subst_type_param_path(new, "E", err) if n else None
     return rw
 
 
